@@ -37,6 +37,10 @@ def gen_leaf(rng):
     n = rng.randint(1, 3)
     items = set()
     shape = []
+    if rng.random() < 0.2:
+        # the "optional argument" pattern {T, type(None)}
+        items.add(type(None))
+        shape.append("n")
     for _ in range(n):
         if rng.random() < 0.5:
             items.add(rng.choice(TYPES))
@@ -123,6 +127,8 @@ def value_violates(spec, value):
 
 
 def gen_scalar(rng):
+    if rng.random() < 0.12:
+        return None, "None"  # an argument explicitly passed as None is present, not missing
     k = rng.randint(0, 3)
     return [rng.randint(-3, 3), rng.choice([0.5, -2.0, 1e9]), rng.choice(["", "q", "é"]), rng.random() < 0.5][k], \
         ["int", "float", "str", "bool"][k]
@@ -138,11 +144,13 @@ def gen_frame(rng):
     data = {}
     classes = []
     for c in cols:
-        kind = rng.choice(["int", "float", "str", "bool", "allnull", "mixed"])
-        if kind == "mixed" and use_polars:
+        kind = rng.choice(["int", "float", "str", "bool", "allnull", "mixed", "mixedeq", "mixedeq"])
+        if kind in ("mixed", "mixedeq") and use_polars:
             kind = "str"
         nullp = rng.choice([0, 0, 0.4])
         vals = []
+        eq_pair = rng.choice([(1, 1.0), (1.0, 1), (2, 2.0), (2.0, 2), (1, True), (True, 1), (0.0, False), (False, 0), (0, 0.0)])
+        eq_cut = rng.randint(1, max(1, nrows - 1))
         for i in range(nrows):
             if kind == "allnull" or rng.random() < nullp:
                 vals.append(None)
@@ -154,8 +162,18 @@ def gen_frame(rng):
                 vals.append(rng.choice(["a", "b", ""]))
             elif kind == "bool":
                 vals.append(rng.random() < 0.5)
+            elif kind == "mixedeq":
+                # values of different types that compare (and hash) equal: 1 == 1.0 == True, 2 == 2.0
+                # (first the one type, then an equal value of another type: a scan of the distinct values misses it)
+                vals.append(eq_pair[0] if i < eq_cut else (eq_pair[1] if rng.random() < 0.8 else rng.choice([1, 2.0, True])))
             else:
                 vals.append(rng.choice([1, "a", 2.5]))
+        if kind == "mixedeq":
+            import pandas as _pd
+
+            data[c] = _pd.Series(vals, dtype=object)
+            classes.append(kind + ("?" if nullp else ""))
+            continue
         data[c] = vals
         classes.append(kind + ("?" if nullp else ""))
     if use_polars:
